@@ -295,10 +295,28 @@ def r4(c):
     sp = one(sct.calls('rodbus::server::spawn_tcp_server_task'), 'spawn_tcp_server_task')
     ok = 'max_sessions' in q.closure_names(sct, sp.args[0]) and {'ip_addr', 'port'} <= q.closure_names(sct, sp.args[1]) and 'endpoints' in q.closure_names(sct, sp.args[2]) and 'decode_level' in q.closure_names(sct, sp.args[4])
     c.ob('server_create_tcp', ok, 'server_create_tcp forwards max sessions, address, endpoints and decode level in order', '', sp.loc())
-    dm = P.fn('rodbus_ffi::server::DeviceMap::drain_and_convert')
-    ad = one(dm.calls('rodbus::server::handler::ServerHandlerMap::add'), 'handlers.add')
-    u = q.sem(dm, ad.args[1])
-    c.ob('device-map', u.kind == 'call' and u.cs.is_('rodbus::types::UnitId::new') and 'key' in q.closure_names(dm, u.cs.args[0]) and 'value' in q.closure_names(dm, ad.args[2]), 'every endpoint is registered under its own unit id', '', loc_of(dm))
+    DM = 'rodbus_ffi::server::DeviceMap::drain_and_convert'
+    sites = [(bb, cs) for bb in P.nested(DM) for cs in bb.calls('rodbus::server::handler::ServerHandlerMap::add')]
+    okd = len(sites) == 1
+    if okd:
+        dm, ad = sites[0]
+        u = q.sem(dm, ad.args[1])
+        okd = u.kind == 'call' and u.cs.is_('rodbus::types::UnitId::new')
+        if okd:
+            k, v = q.sem(dm, u.cs.args[0]), q.sem(dm, ad.args[2])
+            if v.kind == 'call' and v.cs.is_('rodbus::server::handler::RequestHandler::wrap') and v.cs.args and not v.proj:
+                v = q.sem(dm, v.cs.args[0])          # the handler is wrapped (Arc<Mutex<..>>) on its way in
+            kf = [p for p in k.proj if p.startswith('field:')]
+            vf = [p for p in v.proj if p.startswith('field:')]
+            # key and value are the two components of one drained (unit id, handler) pair
+            same_root = (k.kind == v.kind == 'call' and k.cs is v.cs and k.cs.declared == 'core::iter::traits::iterator::Iterator::next') or \
+                        (k.kind == v.kind == 'place' and k.local == v.local and dm.kind == 'Closure' and k.local >= 2)
+            okd = same_root and bool(kf) and bool(vf) and kf[-1].startswith('field:0:') and vf[-1].startswith('field:1:')
+            if okd and dm.kind == 'Closure':
+                import panics
+                ctx = panics.closure_context(dm)
+                okd = ctx is not None and ctx[2].declared.endswith('::for_each')
+    c.ob('device-map', okd, 'every drained endpoint is registered under its own unit id (each pair exactly once: a for loop or for_each over the drain)', '%d add sites' % len(sites), loc_of(P.fn(DM)))
 
 
 @rule('C18', 'R18.5', 'completion callbacks are wrapped into a drop-safe promise before any error return', needs=HAS_FFI)
